@@ -87,6 +87,18 @@ def thorough_extras(ck, mod, prop, seed):
     ck.analysed['self-tests fired'] = fired
     ck.notes.append(f'checker-must-fire suite: {fired}/{len(cases)} mutants of this property reported with the expected rule instance '
                     f'({", ".join(os.path.basename(os.path.dirname(c["patch"])) + "/seed" if os.path.isabs(c["patch"]) else c["patch"] for c in cases)})')
+    benign = st.load_benign(prop)
+    noisy = []
+    with cf.ThreadPoolExecutor(max_workers=int(os.environ.get('VERIF_SELFTEST_JOBS', '3'))) as ex:
+        for c, verdict, detail in ex.map(st.run_benign_case, benign):
+            if verdict != 'SILENT':
+                noisy.append((c, verdict, detail))
+    ck.analysed['behaviour-preserving edits that must stay silent'] = len(benign)
+    ck.notes.append(f'behaviour-preserving edits (selftest/benign): {len(benign) - len(noisy)}/{len(benign)} stay silent')
+    if noisy:
+        for c, verdict, detail in noisy:
+            print(f'CHECK-ERROR: the behaviour-preserving edit {os.path.basename(c["patch"])} is reported ({verdict}): the checker is too strict; last output: {detail[-300:]}')
+        return 2
     if failed:
         for c, verdict, detail in failed:
             print(f'CHECK-ERROR: self-test {c["patch"]} did not fire as expected ({verdict}): the checker lost sensitivity; last output: {detail[-300:]}')
